@@ -107,6 +107,11 @@ def expect_eq(interp, got, exp, what, guard=True):
                     add(f"{what}.{f}.missing", False)
                 else:
                     G.extend(expect_eq(interp, got.fields[f], v, f"{what}.{f}", guard))
+    elif isinstance(exp, VDate):
+        if not isinstance(got, VDate):
+            add(what + ".kind(datetime)", False)
+        else:
+            add(what + ".seconds", eq(got.secs, exp.secs))
     elif exp is None:
         add(what + ".is_none", got is None)
     elif isinstance(exp, tuple):
@@ -133,8 +138,12 @@ def decoded(interp, name, v):
             src = v.fields[c]
             o.fields[c] = VNd(src.shape, src.dt, (lambda *i, src=src: If(v.present(i[0]), src.get(*i), NANW)), label=f"dec({src.label})")
             o.fields[c].expect_nan = lambda *i: Not(v.present(i[0]))      # gap frames: any NaN (C05), not a particular payload
-        for a in ("present", "nruns", "run_start", "run_stop", "N", "runs_assume"):
+        for a in ("present", "nruns", "run_start", "run_stop", "N"):
             setattr(o, a, getattr(v, a))
+    if name == "BTSCamera":
+        for c in ("x_distortion_coefficients", "y_distortion_coefficients"):
+            src = v.fields[c]
+            o.fields[c] = VNd((70,), src.dt, (lambda i, src=src: If(zint(i) < zint(src.shape[0]), src.get(i), npmodel.fzero(src.dt.kind))), label=f"dec({src.label})")
     if name in ("Data3D", "ForceTorque3D", "EMG", "PlatformsData", "PlatformsCalibration", "Calibration", "OpticalSetup", "Events"):
         for f, val in list(v.fields.items()):
             if isinstance(val, VList) and val.items is None and hasattr(val, "key"):
@@ -197,6 +206,7 @@ def c_item_build(name):
         if not isinstance(stream, VInFile):
             raise OutOfReach(f"{fn.qualname} from something that is not a layout stream")
         stream.descend(interp)
+        stream.s.skip_empty(ctx)
         if not stream.s.cur or not isinstance(stream.s.cur[0], ASub) or stream.s.cur[0].name != name:
             raise Unaligned(f"{fn.qualname} called where the layout has {stream.s.cur[0] if stream.s.cur else 'nothing'}")
         sub = stream.s._pop()
@@ -217,7 +227,8 @@ def c_segments(interp, fn, args, kw):
     self_ = args[0]
     if not hasattr(self_, "nruns"):
         raise OutOfReach("_segments of an object without a presence structure")
-    self_.runs_assume(interp.ctx)
+    from .symlayout import runs_assume
+    runs_assume(interp.ctx, self_)
     st, sp = self_.run_start, self_.run_stop
     return VRunsList(self_.nruns, lambda j: VSlice(st(j), sp(j)))
 
